@@ -144,6 +144,9 @@ pub enum E {
     /// parameter pack: `(e1, e2) |> f` (names None) or `{b = e2, a = e1[, ..]} |> f` — the fields in
     /// written order, `dots` = missing parameters take their defaults
     Pack(u32, String, Vec<(Option<String>, E)>, bool),
+    /// auto-spread: `(e1, e2, ..) |> f` for a unary numeric function f = the tuple (f(e1), f(e2), ..),
+    /// one call site (and one state instance) per element
+    Spread(Vec<u32>, String, Vec<E>),
     /// array literal of numbers (only as the right-hand side of a `let`)
     ArrLit(Vec<E>),
     /// `a[i]`: the index is truncated towards zero and clamped to the array (non-finite -> 0)
@@ -211,6 +214,8 @@ pub struct Features {
     pub sibling_closures: u32,
     pub shared_cells: u32,
     pub packs: u32,
+    pub curried: u32,
+    pub spreads: u32,
     pub pipes: u32,
     pub nodes: u32,
     pub fns: u32,
@@ -253,6 +258,8 @@ impl Features {
         f!(self.sibling_closures > 0, "f:sibling-closures");
         f!(self.shared_cells > 0, "f:shared-cell");
         f!(self.packs > 0, "f:param-pack");
+        f!(self.curried > 0, "f:curried-call");
+        f!(self.spreads > 0, "f:auto-spread");
         f!(self.pipes > 0, "f:pipe");
         c
     }
@@ -328,6 +335,10 @@ pub struct PCfg {
     pub param_packs: bool,
     /// functions with default values, used through `{.., ..}` packs
     pub default_args: bool,
+    /// functions that return a lambda capturing their argument, called as mk(e)(y)
+    pub factories: bool,
+    /// `(e1, e2) |> f` for a unary numeric f
+    pub auto_spread: bool,
     /// incomplete records are written with an explicit `..`
     pub pack_dots: bool,
     /// record update `{r <- f = e}` inside the initialiser of a global
@@ -382,6 +393,8 @@ impl Default for PCfg {
             shared_cell: true,
             param_packs: true,
             default_args: true,
+            factories: true,
+            auto_spread: true,
             pack_dots: true,
             record_update_in_globals: true,
             assign_after_closure_escapes: true,
@@ -403,6 +416,9 @@ struct FnSig {
     /// parameter names and which of them have a default (for parameter packs)
     pnames: Vec<String>,
     defaults: Vec<bool>,
+    /// unary float -> float function with both annotations written out (auto-spread is only defined
+    /// for functions whose numeric type is known when the pipe is checked)
+    spread_ok: bool,
 }
 
 #[derive(Clone, Debug)]
@@ -612,6 +628,8 @@ impl<'a> PG<'a> {
         let clo_vars: Vec<VarInfo> = sc.vars.iter().filter(|v| self.visible(sc, v)).chain(self.globals.iter()).filter(|v| matches!(&v.ty, Ty::Fun(_, r) if **r == Ty::Num)).cloned().collect();
         let tuple_callees: Vec<FnSig> = self.fns.iter().filter(|f| matches!(f.ret, Ty::Tup(_)) && f.ret.is_flat_num() && !f.maker && (sc.allow_state || !f.stateful) && (self.cfg.state_in_branches || !sc.in_branch || !f.stateful) && !(sc.in_lambda && f.params.iter().any(|p| matches!(p, Ty::Fun(..))))).cloned().collect();
         let pack_callees: Vec<FnSig> = callees.iter().filter(|f| f.ret == Ty::Num && f.params.len() >= 2 && f.params.iter().all(|t| *t == Ty::Num) && f.pnames.len() == f.params.len()).cloned().collect();
+        let factories: Vec<FnSig> = self.fns.iter().filter(|f| f.params == vec![Ty::Num] && f.ret == Ty::Fun(vec![Ty::Num], Box::new(Ty::Num)) && !f.maker && !f.stateful).cloned().collect();
+        let unary_callees: Vec<FnSig> = callees.iter().filter(|f| f.spread_ok).cloned().collect();
         let state_ok = self.cfg.state && sc.allow_state && (self.cfg.state_in_branches || !sc.in_branch);
         let delay_ok = state_ok && self.cfg.delays && (self.cfg.multi_delay_per_fn || !sc.fn_has_delay);
         let tuple_self = matches!(&sc.self_ty, Some(Ty::Tup(_)));
@@ -640,6 +658,8 @@ impl<'a> PG<'a> {
             if self.cfg.sibling_closures && self.cfg.closures && sc.allow_closure && !sc.in_lambda && !clo_vars.is_empty() && (self.cfg.block_operands || !sc.in_operand) { 2 } else { 0 }, // 21 sibling closures sharing a captured closure
             if self.cfg.shared_cell && self.cfg.closures && self.cfg.assigns && sc.allow_closure && !sc.in_lambda && (self.cfg.block_operands || !sc.in_operand) { 2 } else { 0 }, // 22 a numeric local shared by sibling closures and the frame
             if self.cfg.param_packs && !pack_callees.is_empty() { 3 } else { 0 }, // 23 parameter pack piped into a function
+            if self.cfg.factories && !sc.in_lambda && !factories.is_empty() { 3 } else { 0 }, // 24 curried call mk(e)(y) / y |> mk(e)
+            if self.cfg.auto_spread && !sc.in_lambda && !unary_callees.is_empty() && (self.cfg.block_operands || !sc.in_operand) { 3 } else { 0 }, // 25 tuple auto-spread through a unary function
         ];
         match self.g.weighted(&w) {
             0 => self.leaf_num(sc),
@@ -752,6 +772,57 @@ impl<'a> PG<'a> {
                 let body = self.num(&mut inner);
                 let id = self.id();
                 E::Pipe(id, Box::new(x), Box::new(E::Lam(vec![Param { name: pname, ty: Ty::Num, annotate: false }], Box::new(body))))
+            }
+            24 => {
+                // the callee of the outer application is itself a call (whose argument may be stateful)
+                self.feat.curried += 1;
+                self.feat.closures_local += 1;
+                let f = self.g.pick(&factories).clone();
+                let was = sc.in_operand;
+                sc.in_operand = true;
+                let inner = self.call_fn(&f, sc);
+                // call_fn may have produced the pipe form e |> mk; the factory call proper is needed here
+                let inner = match inner {
+                    E::Pipe(id, a, _) => E::Call(id, Box::new(E::Var(f.name.clone())), vec![*a]),
+                    other => other,
+                };
+                let y = self.small_num(sc);
+                sc.in_operand = was;
+                let id = self.id();
+                if self.g.bool(1, 3) {
+                    E::Pipe(id, Box::new(y), Box::new(inner))
+                } else {
+                    E::Call(id, Box::new(inner), vec![y])
+                }
+            }
+            25 => {
+                // { let (s1, s2) = (e1, e2) |> f  s1 + s2 }
+                self.feat.spreads += 1;
+                self.feat.pipes += 1;
+                let f = self.g.pick(&unary_callees).clone();
+                let k = self.g.int(2, 3) as usize;
+                let mut ids = vec![];
+                for _ in 0..k {
+                    // every element is its own call site of f
+                    let probe = self.call_fn(&FnSig { params: vec![], ..f.clone() }, sc);
+                    ids.push(match probe {
+                        E::Call(id, ..) | E::Pipe(id, ..) => id,
+                        _ => self.id(),
+                    });
+                }
+                let was_tl = sc.in_tuple_lit;
+                sc.in_tuple_lit = true;
+                let mut elems = vec![self.small_num(sc)];
+                for _ in 1..k {
+                    let saved = self.fuel;
+                    self.fuel = saved.min(3);
+                    elems.push(self.num(sc));
+                    self.fuel = saved;
+                }
+                sc.in_tuple_lit = was_tl;
+                let vars: Vec<String> = (0..k).map(|_| self.fresh("s")).collect();
+                let sum = vars.iter().skip(1).fold(E::Var(vars[0].clone()), |acc, v| E::Bin(Bop::Add, Box::new(acc), Box::new(E::Var(v.clone()))));
+                E::Block(vec![S::Let(Pat::Tup(vars.iter().map(|v| Pat::Var(v.clone())).collect()), E::Spread(ids, f.name.clone(), elems))], Box::new(sum))
             }
             23 => {
                 // (e1, e2) |> f      or      {p2 = e2, p1 = e1[, ..]} |> f
@@ -1204,7 +1275,7 @@ impl<'a> PG<'a> {
         let body = E::Block(vec![S::Let(Pat::Var(x), E::Var(p.clone())), S::Let(Pat::Var(cname.clone()), lam)], Box::new(E::Var(cname)));
         let clo_ty = Ty::Fun(if with_arg { vec![Ty::Num] } else { vec![] }, Box::new(Ty::Num));
         let def = FnDef { name: name.clone(), params: vec![Param { name: p, ty: Ty::Num, annotate: false }], defaults: vec![], ret: clo_ty.clone(), annotate_ret: false, body };
-        (def, FnSig { name, params: vec![Ty::Num], ret: clo_ty, stateful: false, depth: 0, maker: true, pnames: vec![], defaults: vec![] })
+        (def, FnSig { name, params: vec![Ty::Num], ret: clo_ty, stateful: false, depth: 0, maker: true, pnames: vec![], defaults: vec![], spread_ok: false })
     }
 
     pub fn program(&mut self) -> Prog {
@@ -1213,7 +1284,7 @@ impl<'a> PG<'a> {
         let nf = self.g.int_small(0, self.cfg.max_fns as i64) as usize;
         for _ in 0..nf {
             self.fuel = self.g.int(4, self.cfg.fuel as i64 / 2) as i32;
-            match self.g.weighted(&[8, if self.cfg.makers && self.cfg.closures { 2 } else { 0 }, if self.cfg.globals { 2 } else { 0 }, if self.cfg.hof { 2 } else { 0 }]) {
+            match self.g.weighted(&[8, if self.cfg.makers && self.cfg.closures { 2 } else { 0 }, if self.cfg.globals { 2 } else { 0 }, if self.cfg.hof { 2 } else { 0 }, if self.cfg.factories && self.cfg.closures { 2 } else { 0 }]) {
                 0 => {
                     let name = self.fresh("fun");
                     let np = self.g.int_small(0, 3) as usize;
@@ -1240,7 +1311,13 @@ impl<'a> PG<'a> {
                         }
                     }
                     let pnames = params.iter().map(|(n, _)| n.clone()).collect();
-                    self.fns.push(FnSig { name, params: params.into_iter().map(|(_, t)| t).collect(), ret, stateful, depth, maker: false, pnames, defaults });
+                    let mut spread_ok = false;
+                    if params.len() == 1 && params[0].1 == Ty::Num && ret == Ty::Num && self.cfg.auto_spread && self.g.coin() {
+                        def.params[0].annotate = true;
+                        def.annotate_ret = true;
+                        spread_ok = true;
+                    }
+                    self.fns.push(FnSig { name, params: params.into_iter().map(|(_, t)| t).collect(), ret, stateful, depth, maker: false, pnames, defaults, spread_ok });
                     self.feat.fns += 1;
                     tops.push(Top::Fn(def));
                 }
@@ -1274,6 +1351,22 @@ impl<'a> PG<'a> {
                     self.globals.push(VarInfo { name: gname, ty: t, assignable: false, destructured: false, captured: false });
                     self.feat.globals += 1;
                 }
+                4 => {
+                    // closure factory: fn mk(a) { |x| <expr over a and x> } — called as mk(e)(y) or y |> mk(e)
+                    let name = self.fresh("mkf");
+                    let a = self.fresh("a");
+                    let x = self.fresh("x");
+                    let mut sc = Scope { vars: vec![VarInfo { name: a.clone(), ty: Ty::Num, assignable: false, destructured: false, captured: true }, VarInfo { name: x.clone(), ty: Ty::Num, assignable: false, destructured: false, captured: false }], self_ty: None, allow_state: false, in_branch: false, fn_has_delay: false, allow_assign: false, allow_closure: false, in_lambda: true, depth_stateful: 0, in_tuple_lit: false, in_operand: false, in_cond: false };
+                    let saved = self.fuel;
+                    self.fuel = 4;
+                    let body = self.num(&mut sc);
+                    self.fuel = saved;
+                    let fty = Ty::Fun(vec![Ty::Num], Box::new(Ty::Num));
+                    let def = FnDef { name: name.clone(), params: vec![Param { name: a, ty: Ty::Num, annotate: self.g.coin() }], defaults: vec![], ret: fty.clone(), annotate_ret: false, body: E::Lam(vec![Param { name: x, ty: Ty::Num, annotate: self.g.coin() }], Box::new(body)) };
+                    self.fns.push(FnSig { name, params: vec![Ty::Num], ret: fty, stateful: false, depth: 0, maker: false, pnames: vec![], defaults: vec![], spread_ok: false });
+                    self.feat.fns += 1;
+                    tops.push(Top::Fn(def));
+                }
                 _ => {
                     // higher-order function: takes f:(float)->float and a number
                     let name = self.fresh("hof");
@@ -1281,7 +1374,7 @@ impl<'a> PG<'a> {
                     let xparam = self.fresh("p");
                     let fty = Ty::Fun(vec![Ty::Num], Box::new(Ty::Num));
                     let (def, stateful, depth, _) = self.gen_fn(name.clone(), vec![(fparam, fty.clone()), (xparam, Ty::Num)], Ty::Num, false);
-                    self.fns.push(FnSig { name, params: vec![fty, Ty::Num], ret: Ty::Num, stateful, depth, maker: false, pnames: vec![], defaults: vec![] });
+                    self.fns.push(FnSig { name, params: vec![fty, Ty::Num], ret: Ty::Num, stateful, depth, maker: false, pnames: vec![], defaults: vec![], spread_ok: false });
                     self.feat.hof_calls += 1;
                     tops.push(Top::Fn(def));
                 }
@@ -1705,6 +1798,16 @@ fn render_e_inner(e: &E, lay: &Layout, level: usize, out: &mut String, cn: &mut 
             }
             let _ = write!(out, " |> {fname}");
         }
+        E::Spread(_, fname, es) => {
+            out.push('(');
+            for (i, e) in es.iter().enumerate() {
+                if i > 0 {
+                    out.push_str(", ");
+                }
+                render_e(e, lay, level, out, cn);
+            }
+            let _ = write!(out, ") |> {fname}");
+        }
         E::ArrLit(es) => {
             out.push('[');
             for (i, e) in es.iter().enumerate() {
@@ -1793,6 +1896,7 @@ pub fn visit_mut(e: &mut E, f: &mut dyn FnMut(&mut E)) {
             visit_mut(d, f);
         }
         E::Pack(_, _, fields, _) => fields.iter_mut().for_each(|(_, x)| visit_mut(x, f)),
+        E::Spread(_, _, es) => es.iter_mut().for_each(|x| visit_mut(x, f)),
         E::ArrLit(es) => es.iter_mut().for_each(|x| visit_mut(x, f)),
         E::Index(a, i) => {
             visit_mut(a, f);
@@ -1960,6 +2064,10 @@ fn rename_e(e: &mut E, f: &dyn Fn(&str) -> String) {
                 }
                 rename_e(x, f)
             });
+        }
+        E::Spread(_, fname, es) => {
+            *fname = f(fname);
+            es.iter_mut().for_each(|x| rename_e(x, f));
         }
         E::ArrLit(es) => es.iter_mut().for_each(|x| rename_e(x, f)),
         E::Index(a, i) => {
